@@ -521,6 +521,42 @@ def evaluate(cases, rnd, ratios=(750,), multiline=True, variants=1, trace=None):
                 rest.remove(k)
         if missing or rest:
             rec["findings"].append(("warnings", "warn", "warnings %s, expected %s (optional %s)" % (got, want, optional)))
+        else:
+            # where each diagnostic points (CssRewrite!Warn): an empty location inside the source text, at the place the
+            # specification names for the item it is about
+            lines = u["src"].split("\n")
+            used = set()
+            for w in r["warn"]:
+                kind = names.get(w[0], str(w[0]))
+                loc = ((w[2], w[3]), (w[4], w[5]))
+                bad = None
+                for q in loc:
+                    if q[0] >= len(lines) or q[1] > len(lines[q[0]].encode("utf-16-le")) // 2:
+                        bad = "location %s lies outside the source text" % (loc,)
+                if not bad and loc[0] > loc[1]:
+                    bad = "location %s ends before it starts" % (loc,)
+                if not bad:
+                    hit = None
+                    for xi, x in enumerate(c["warn"]):
+                        if xi in used or x["kind"].rstrip("?") != kind or "where" not in x:
+                            continue
+                        key, frm = tuple(x["id"]), tuple(x["from"])
+                        if x["where"] == "afterkeyword":
+                            t = u["pos"].get((frm, "t"))
+                            okp = t is not None and loc[0] == (t[0], t[1] + 7) and loc[1] == loc[0]
+                        else:
+                            a, b = u["pos"].get((frm, "t")), u["pos"].get((key, "o"))
+                            okp = a is not None and b is not None and a <= loc[0] <= loc[1] <= b
+                        if okp:
+                            hit = xi
+                            break
+                    if hit is None:
+                        bad = "%s at %s: not at the place of any item the specification flags (%s)" % (
+                            kind, loc, [(x["kind"], x.get("where"), u["pos"].get((tuple(x.get("from", ())), "t"))) for x in c["warn"]])
+                    else:
+                        used.add(hit)
+                if bad:
+                    rec["findings"].append(("warnings", "warnpos", bad))
         # source maps
         spans = {}
         for (key, role), p in u["pos"].items():
